@@ -17,6 +17,7 @@ import (
 	"math/big"
 	"math/rand"
 	"sort"
+	"strings"
 	"testing"
 
 	"github.com/btcsuite/btcd/chaincfg/chainhash"
@@ -316,6 +317,9 @@ func (c *ctx) try(class, name string, contract common.Address, method string, ar
 		if rec.Ok {
 			c.r.Count("without_witness_but_allowed_ok:"+name, 1)
 		}
+	case rec.Ok && strings.HasPrefix(cb.name, "non-consensus-set"):
+		c.r.Violation(class+":"+name+":succeeds-with-witness-of-non-consensus-set",
+			fmt.Sprintf("%s succeeded signed by the multi-signature of [%s]; the operator is the multi-signature of the %d consensus validators only (%s)", name, cb.name, len(c.cons), required.ToHexString()), replay)
 	case rec.Ok:
 		c.r.Violation(class+":"+name+":succeeds-without-required-witness",
 			fmt.Sprintf("%s succeeded signed by [%s] although the required %s address %s is not among the signature addresses", name, cb.name, class, required.ToHexString()), replay)
@@ -876,6 +880,67 @@ func notified(rec *nat.CallRecord, name string) uint64 {
 	panic("setup: no " + name + " notification")
 }
 
+// nonConsensusSets: while the pool holds members that are not consensus validators (an approved candidate, a
+// candidate that asked to quit, a blacklisted candidate - all before the next epoch change) the operator is still the
+// multi-signature of the consensus validators alone: operator-only calls witnessed by the multi-signature of
+// validators + such members must fail.
+func (c *ctx) nonConsensusSets() (sets []combo) {
+	r := c.r
+	nm := utils.NodeManagerContractAddress
+	cand := c.spareKey()
+	c.admit(cand, c.owner)
+	quitting := c.spareKey()
+	c.admit(quitting, c.owner)
+	must(c.e.Call(nm, "quitNode", peerParam(quitting.PubHex(), c.owner.Addr), pk.Single(c.owner)), "quitNode(candidate)")
+	c.drop(quitting)
+	black := c.spareKey()
+	c.admit(black, c.owner)
+	c.approveAll(nm, "blackNode", func(a common.Address) []byte { return peerListParam([]string{black.PubHex()}, a) })
+	c.drop(black)
+	with := func(extra ...*pk.Key) []pk.Signer {
+		ks := append(append([]*pk.Key{}, c.cons...), extra...)
+		return []pk.Signer{pk.OperatorSigner(pk.SortKeys(ks))}
+	}
+	sets = []combo{
+		{"non-consensus-set: validators + one approved candidate", with(cand)},
+		{"non-consensus-set: validators + all approved candidates", with(c.cands...)},
+		{"non-consensus-set: validators + candidate that asked to quit", with(quitting)},
+		{"non-consensus-set: validators + blacklisted candidate", with(black)},
+		{"non-consensus-set: every pool member", with(append(append([]*pk.Key{}, c.cands...), quitting, black)...)},
+	}
+	op := c.operator()
+	opCombo := combo{"operator (consensus validators only)", []pk.Signer{c.opSigner()}}
+	run := func(name string, contract common.Address, method string, args func() []byte) {
+		for _, cb := range append(append([]combo{}, sets...), opCombo) {
+			rec := c.try("operator", name, contract, method, args(), op, cb, false)
+			if cb.name == opCombo.name && rec.Ok {
+				r.Count("accepted_from_consensus_only_operator_while_non_consensus_members_in_pool", 1)
+			}
+			if cb.name != opCombo.name && !rec.Ok {
+				r.Count("rejected_witness_of_non_consensus_set", 1)
+			}
+		}
+	}
+	run("updateConfig", nm, "updateConfig", func() []byte {
+		s := common.NewZeroCopySink(nil)
+		(&node_manager.UpdateConfigParam{Configuration: &node_manager.Configuration{BlockMsgDelay: 5000, HashMsgDelay: 5000, PeerHandshakeTimeout: 10,
+			MaxBlockChangeView: 10000 + uint32(c.rng.Intn(50))}}).Serialization(s)
+		return s.Bytes()
+	})
+	target := c.registerChain(utils.ETH_ROUTER, c.owner)
+	for _, method := range []string{ccom.BLACK_CHAIN, ccom.WHITE_CHAIN} {
+		run(method, utils.CrossChainManagerContractAddress, method, func() []byte {
+			s := common.NewZeroCopySink(nil)
+			(&ccom.BlackChainParam{ChainID: target}).Serialization(s)
+			return s.Bytes()
+		})
+	}
+	ethRouter := routers()[1]
+	gid := c.registerChain(ethRouter.router, c.owner)
+	run("syncGenesisHeader/"+ethRouter.name, utils.HeaderSyncContractAddress, hcom.SYNC_GENESIS_HEADER, func() []byte { return genesisParam(gid, ethRouter.valid(c.rng)) })
+	return sets
+}
+
 // ---------------------------------------------------------------------------------------------
 // calling-context rule
 
@@ -1078,20 +1143,30 @@ func TestC18(t *testing.T) {
 		c.e.Validators = c.cons
 		r.Count(fmt.Sprintf("rounds_with_genesis_MaxBlockChangeView=%d", genesisMax), 1)
 		func() {
+			vBefore := r.Violations()
 			defer func() {
 				if p := recover(); p != nil {
+					if r.Violations() > vBefore {
+						r.Count("rounds_abandoned_after_a_violation", 1) // the violation already says why the setup could not go on
+						return
+					}
 					r.Inconclusive(fmt.Sprintf("round %d: %v", round, p))
 				}
 			}()
 			c.operatorMethods("genesis-epoch")
 			c.ownerMethods()
 			c.contextCases(r.N(25, 40))
+			// ---- pool members that are not consensus validators do not belong to the operator
+			sets := c.nonConsensusSets()
 			// ---- epoch change with a changed validator set: the operator address changes
 			old := c.opSigner()
-			c.admit(c.spareKey(), c.owner)
 			gv := c.view()
 			c.e.Height = gv.Height + 1
-			must(c.e.Call(utils.NodeManagerContractAddress, "commitDpos", nil, old), "commitDpos")
+			for _, cb := range sets { // not due, and these signers are not the operator
+				c.try("operator", "commitDpos/not-due", utils.NodeManagerContractAddress, "commitDpos", nil, c.operator(), cb, false)
+			}
+			must(c.e.Call(utils.NodeManagerContractAddress, "commitDpos", nil, old), "commitDpos witnessed by the multi-signature of the consensus validators (the operator)")
+			r.Count("accepted_from_consensus_only_operator_while_non_consensus_members_in_pool", 1)
 			c.cons = append(c.cons, c.cands...)
 			c.cands = nil
 			if pm, err := node_manager.GetPeerPoolMap(c.e.Service(), c.view().View); err != nil || len(pm.PeerPoolMap) != len(c.cons) {
@@ -1130,6 +1205,8 @@ func TestC18(t *testing.T) {
 	r.Require("context_real_callee_accepts_immediate_caller", rounds)
 	r.Require("context_real_callee_rejects_other_contract", rounds*3)
 	r.Require("epoch_changes_with_new_operator", rounds)
+	r.Require("rejected_witness_of_non_consensus_set", rounds*20)
+	r.Require("accepted_from_consensus_only_operator_while_non_consensus_members_in_pool", rounds*5)
 	var names []string
 	for _, rt := range routers() {
 		names = append(names, rt.name)
@@ -1139,6 +1216,8 @@ func TestC18(t *testing.T) {
 	r.Assume("only one direction is judged: without the required address among the transaction's signature addresses the call must fail and leave the storage digest unchanged; " +
 		"a failure WITH the witness is not a violation (garbage genesis payloads fail for other reasons), vacuity guards demand a witnessed success per method")
 	r.Assume("operator address = multi-signature address of the current consensus validators' keys with m = n-(n-1)/3, recomputed by the check from its own bookkeeping of the validator set (and cross-checked with types.AddressFromBookkeepers)")
+	r.Assume("members of the pool that never were consensus validators of the current epoch (approved candidates, also after asking to quit or being blacklisted) are not part of the operator; " +
+		"a consensus validator that asked to quit (still in office, but no longer counted by poly) is not used to build a must-fail case")
 	r.Assume("commitDpos without the operator is allowed exactly when height - height_of_last_view_change >= MaxBlockChangeView (read with node_manager.GetConfig)")
 	r.Assume("a caller that swallows the error of a failed nested call (impossible for transactions on this tree: nothing calls NativeCall) is recorded as latent, not judged")
 	r.Assume("not covered: RegisterAsset / UpdateFee / AddSignature / vote import (listed in DESIGN, outside this task's method list)")
